@@ -239,4 +239,20 @@ structure VipPollExt where
   approved : Str → Bool × Option Err
   upgradeResult : Str → Nat → Str × Option Err
 
+/-! ### the gate helpers `sendFailureToClientIfLocked`, `sendFailureToClientIfNonAdmin` -/
+
+inductive GateEffect
+  | lock | unlock
+  | securityHeaders
+  | fail (status : Nat)
+  | askAdmin (user : Str)        -- IsAdminUser(user) is evaluated
+deriving DecidableEq, Repr
+
+structure AdminGateExt where
+  /-- `sendFailureToClientIfLocked(w, r)`: true = sealed (the helper answered 500 itself) -/
+  locked : Bool
+  /-- `checkAuth(w, r, mask)`: what the credential establishes, or an error (then `checkAuth` answered itself) -/
+  checkAuth : Nat → authInfo × Option Err
+  isAdmin : Str → Bool
+
 end KM.GoTypes
